@@ -394,6 +394,19 @@ func (e *Executor) startExecution(ctx context.Context, t *ast.Task, execute func
 		return execute(ctx)
 	}
 
+	// A call that is itself part of the execution it asks for (a cyclic
+	// reference through a run: once / when_changed task) would wait for its
+	// own end: report the cycle instead
+	path, _ := ctx.Value(executionPathKey{}).(*executionPath)
+	for p := path; p != nil; p = p.parent {
+		if p.hash == h {
+			return &errors.TaskCalledTooManyTimesError{
+				TaskName:        t.Task,
+				MaximumTaskCall: MaximumTaskCall,
+			}
+		}
+	}
+
 	e.executionHashesMutex.Lock()
 
 	if otherExecution, ok := e.executionHashes[h]; ok {
@@ -420,9 +433,19 @@ func (e *Executor) startExecution(ctx context.Context, t *ast.Task, execute func
 	// be first has failed: other callers (including deferred task calls, which
 	// must always run) would observe a cancellation that has nothing to do
 	// with them.
-	thisExecution.err = execute(context.WithoutCancel(ctx))
+	thisExecution.err = execute(context.WithValue(context.WithoutCancel(ctx), executionPathKey{}, &executionPath{hash: h, parent: path}))
 	return thisExecution.err
 }
+
+// executionPath records, in the context of a call, the deduplicated executions
+// that the call is (transitively) a part of.
+type (
+	executionPathKey struct{}
+	executionPath    struct {
+		hash   string
+		parent *executionPath
+	}
+)
 
 // FindMatchingTasks returns a list of tasks that match the given call. A task
 // matches a call if its name is equal to the call's task name or if it matches
